@@ -37,7 +37,9 @@ MANIFEST = dict(
 ASSUMPTIONS = ['apply_slice with in-range pairs 0 <= start < stop <= extent has shape stop-start and reads start+d (C05 domain theorem; observed here through every element of every reduction)',
                'uint32 arithmetic of the order-revealing functor is modelled as Nat mod 2^32',
                'compile-time-constant axis kinds are covered by the C09 kind matrix, not here']
-PARTIAL = []
+PARTIAL = ['var / stddev: no Lean statement (composition mean -> broadcast subtract -> fabs -> square -> sum -> divide by N-ddof needs the C06 broadcasting model); covered by correspondence with NumPy var/std (ddof 0 and 1, every axis subset, keepdims, view and eval) only',
+           'trace: no Lean statement here (sum over the last axis of view::diagonal; the diagonal index map belongs to C04/C16); covered by comparison with numpy.trace for every axis pair and every offset with a non-empty diagonal',
+           'mean_eq_sum_div_count / vector_norm_eq are plumbing statements over abstract element operations (which elements are folded, in which order, divided by their count); the float arithmetic itself is compared with NumPy under a tolerance']
 TRUSTED = []
 
 
@@ -376,7 +378,7 @@ def gen_float(tier, rng):
                         base = 'api=%s et=%s ax=%s shape=%s axis=%s keepdims=%d data=%s' % (api, et, axk, fmt(s), axs, keep, fmt(data))
                         tol = close_cmp(1e-9, 1e-12) if et == 'f64' else close_cmp(2e-5, 1e-6)
                         tg = ['api=' + api, 'et=' + et, srank, 'keepdims=%d' % keep]
-                        yield Case('mean ' + base, 'h_c08f1', model=False, oracle=fans(np.mean(a, axis=ax, keepdims=bool(keep))), cmp=tol,
+                        yield Case('mean ' + base, 'h_c08f1', model=True, oracle=fans(np.mean(a, axis=ax, keepdims=bool(keep))), cmp=tol,
                                    nontrivial=nt, tags=['mean'] + tg)
                         for ddof in (0, 1):
                             if count - ddof <= 0:
@@ -388,7 +390,7 @@ def gen_float(tier, rng):
                     for ord_ in (1, 2, 3):
                         axk = 'int' if (axes is not None and len(axes) == 1 and rng.random() < 0.5) else 'vec'
                         yield Case('vector_norm api=%s et=f64 ax=%s ord=%d shape=%s axis=%s keepdims=%d data=%s' % (api, axk, ord_, fmt(s), axs, keep, fmt(data)),
-                                   'h_c08f3', model=False, cmp=close_cmp(1e-5, 1e-7), nontrivial=nt, tags=['vector_norm', 'ord=%d' % ord_, 'api=' + api, srank],
+                                   'h_c08f3', model=True, cmp=close_cmp(1e-5, 1e-6), nontrivial=nt, tags=['vector_norm', 'ord=%d' % ord_, 'api=' + api, srank],
                                    oracle=fans(np.linalg.vector_norm(a, axis=ax, keepdims=bool(keep), ord=ord_)))
         # trace: every ordered pair of distinct axes, every offset with a non-empty diagonal
         if nd >= 2:
